@@ -340,8 +340,9 @@ def mon_c18_queues(sim):
                     if pend or obs['snap']['rxbuf']:
                         bad.append(('C18:idle-unsound', '%s reports idle with transfers %s pending / %d octets unprocessed' % (ep.name, pend, obs['snap']['rxbuf'])))
         for t, res in finished.items():
-            if len(res) > 1 and t in started:
-                bad.append(('C18:finished-twice', '%s transfer %d got finished signals %s' % (ep.name, t, res)))
+            if len(res) > 1:
+                bad.append(('C18:finished-twice', '%s transfer %d (%s) got finished signals %s'
+                            % (ep.name, t, 'started' if t in started else 'never started', res)))
         # a signal raised after the object was removed from the bus reaches nobody
         for (_path, name, _sig, args) in getattr(ep.h, '_verif_lost', []):
             bad.append(('C18:signal-after-unexport-%s' % name,
